@@ -352,11 +352,14 @@ calcvla(struct func *f, struct type *t)
 		return;
 	assert(t->kind == TYPEARRAY);
 	if (!t->u.array.size) {
-		assert(t->base->size || t->base->kind == TYPEARRAY);
 		if (!t->u.array.length)
 			error(&tok.loc, "array of unspecified size ('[*]') is only allowed in a function prototype");
 		length = convert(f, &typeulong, t->u.array.length->type, funcexpr(f, t->u.array.length));
-		basesize = t->base->size ? mkintconst(t->base->size) : t->base->u.array.size;
+		/* the element size is a run-time value only for an element type that is a variable length array itself */
+		if (t->base->kind == TYPEARRAY && t->base->prop & PROPVM && !t->base->size)
+			basesize = t->base->u.array.size;
+		else
+			basesize = mkintconst(t->base->size);
 		t->u.array.size = funcinst(f, IMUL, 'l', length, basesize);
 	}
 }
